@@ -1974,10 +1974,13 @@ impl Connection {
         }
         // The server is guaranteed to have validated our address if any of our handshake or 1-RTT
         // packets are acknowledged or we've seen HANDSHAKE_DONE and discarded handshake keys.
+        // Acknowledgements of 0-RTT packets prove nothing of the kind: before we have sent a
+        // Handshake packet, that is all an acknowledgement in the data space can be about.
         self.spaces[SpaceId::Handshake]
             .largest_acked_packet
             .is_some()
-            || self.spaces[SpaceId::Data].largest_acked_packet.is_some()
+            || (self.spaces[SpaceId::Data].largest_acked_packet.is_some()
+                && self.spaces[SpaceId::Handshake].next_packet_number > 0)
             || (self.spaces[SpaceId::Data].crypto.is_some()
                 && self.spaces[SpaceId::Handshake].crypto.is_none())
     }
